@@ -84,8 +84,8 @@ fn load_world(repo: &Path, work: &Path) -> World {
         ),
         (
             "syn_deprecated__q",
-            "schema { query: Query }\ntype Query { currentUser: User, role: Role }\ntype User { id: ID!, name: String, oldName: String @deprecated(reason: \"Use name\"), legacy: Int @deprecated(reason: \"gone \\\"for good\\\"\") }\nenum Role { ADMIN OLD @deprecated(reason: \"x\") USER }\n",
-            "query Dep { currentUser { id name oldName legacy } role }\n",
+            "schema { query: Query }\ntype Query { currentUser: User, role: Role }\ntype User { id: ID!, name: String, oldName: String @deprecated(reason: \"Use name\"), legacy: Int @deprecated(reason: \"gone \\\"for good\\\"\"), vintage: Int @deprecated }\nenum Role { ADMIN OLD @deprecated(reason: \"x\") USER }\n",
+            "query Dep { currentUser { id name oldName legacy vintage } role }\n",
         ),
         (
             "syn_shapes__q",
@@ -201,16 +201,31 @@ struct Outcome {
 }
 
 fn run_cli(cfg: &Cfg, args: &[String], dir: &Path, timeout_s: u64) -> (Option<i32>, Vec<u8>, String, bool) {
-    run_cli_env(cfg, args, dir, timeout_s, &[], false)
+    run_cli_env(cfg, args, dir, timeout_s, &[], false, None)
 }
 
-fn run_cli_env(cfg: &Cfg, args: &[String], dir: &Path, timeout_s: u64, env: &[(&str, &str)], stdout_full: bool) -> (Option<i32>, Vec<u8>, String, bool) {
+fn run_cli_env(cfg: &Cfg, args: &[String], dir: &Path, timeout_s: u64, env: &[(&str, &str)], stdout_full: bool, fsize_limit: Option<u64>) -> (Option<i32>, Vec<u8>, String, bool) {
     let stdout_cfg = if stdout_full {
         std::fs::OpenOptions::new().write(true).open("/dev/full").map(Stdio::from).unwrap_or_else(|_| Stdio::piped())
     } else {
         Stdio::piped()
     };
-    let mut child = Command::new(&cfg.cli)
+    let mut cmd = Command::new(&cfg.cli);
+    if let Some(limit) = fsize_limit {
+        use std::os::unix::process::CommandExt;
+        // only async-signal-safe calls between fork and exec
+        unsafe {
+            cmd.pre_exec(move || {
+                let lim = libc::rlimit { rlim_cur: limit as libc::rlim_t, rlim_max: limit as libc::rlim_t };
+                if libc::setrlimit(libc::RLIMIT_FSIZE, &lim) != 0 {
+                    return Err(std::io::Error::last_os_error());
+                }
+                libc::signal(libc::SIGXFSZ, libc::SIG_IGN);
+                Ok(())
+            });
+        }
+    }
+    let mut child = cmd
         .args(args)
         .current_dir(dir)
         .env_clear()
@@ -325,6 +340,11 @@ fn execute(plan: &Value, w: &World, cfg: &Cfg, slot: usize) -> Outcome {
     if sink_dir {
         std::fs::create_dir_all(&out_path).unwrap();
     }
+    // `fsize`: the output file cannot grow beyond a few bytes / kilobytes. A run that reports
+    // success must have the complete JSON at --output (possible only if it fits); a run that
+    // reports failure is accepted, and what it left in the file is not judged (the reply was good:
+    // the "untouched on failure" clause is about server-side failures).
+    let sink_fsize = plan["sink"] == "fsize" && !plan["output"].is_null() && !sink_full && !sink_dir;
     let pre = if sink_full || sink_dir { None } else { pre };
     // `symlink`: the --output path is a symbolic link to a file holding old text; whatever the
     // tool does, reading through the path afterwards must give the JSON (success) or the old text
@@ -402,7 +422,7 @@ fn execute(plan: &Value, w: &World, cfg: &Cfg, slot: usize) -> Outcome {
         Some("locale-tz") => vec![("LANG", "tr_TR.UTF-8"), ("LC_ALL", "tr_TR.UTF-8"), ("TZ", "Pacific/Kiritimati"), ("TERM", "xterm-256color"), ("COLUMNS", "20")],
         _ => vec![],
     };
-    let (code, stdout, stderr, timed_out) = run_cli_env(cfg, &args, &dir, 90, &env, sink_full && plan["output"].is_null());
+    let (code, stdout, stderr, timed_out) = run_cli_env(cfg, &args, &dir, 90, &env, sink_full && plan["output"].is_null(), if sink_fsize { plan["fsize_limit"].as_u64() } else { None });
     let seen = endpoint.finish();
     // (/dev/full reads as an endless stream of zeros: never read it back)
     let after: Option<Vec<u8>> = if sink_full { None } else { std::fs::read(&out_path).ok() };
@@ -415,7 +435,7 @@ fn execute(plan: &Value, w: &World, cfg: &Cfg, slot: usize) -> Outcome {
     let mut v: Vec<Violation> = vec![];
     let mut push = |class: &str, detail: String| v.push(Violation { class: class.to_string(), detail });
     let exit_ok = code == Some(0);
-    if !strays.is_empty() && !plan["output"].is_null() {
+    if !strays.is_empty() && !plan["output"].is_null() && !(sink_fsize && !exit_ok) {
         push("output-written-elsewhere", format!("files appeared next to the --output path {:?}: {:?}", oname, strays));
     }
     if timed_out {
@@ -497,7 +517,7 @@ fn execute(plan: &Value, w: &World, cfg: &Cfg, slot: usize) -> Outcome {
         }
         // replies a client may accept or reject: judged as a success when the tool reports one,
         // as a failure when it reports one
-        let success_expected = plan::success_expected(&built.meaning) && !sink_full && (exit_ok || !(built.either_ok || sink_dir));
+        let success_expected = plan::success_expected(&built.meaning) && !sink_full && (exit_ok || !(built.either_ok || sink_dir || sink_fsize));
         if sink_full && plan::success_expected(&built.meaning) && exit_ok {
             push("write-failure-not-reported", "the output target accepts no bytes (/dev/full) but the exit status is 0: the JSON cannot have been written".into());
         }
@@ -526,7 +546,7 @@ fn execute(plan: &Value, w: &World, cfg: &Cfg, slot: usize) -> Outcome {
             if exit_ok && !(sink_full && plan::success_expected(&built.meaning)) {
                 push("failure-expected-but-succeeded", format!("reply means {:?} but exit status is 0", short_meaning(&built.meaning)));
             }
-            if let Some(p) = &pre {
+            if let (Some(p), false) = (&pre, sink_fsize && plan::success_expected(&built.meaning)) {
                 if after.as_ref() != Some(p) {
                     push("output-file-modified-on-failure", format!("existing output file had {} bytes, has {} after a failed run ({})", p.len(), after.as_ref().map(|a| a.len() as i64).unwrap_or(-1), short_meaning(&built.meaning)));
                 }
@@ -734,6 +754,9 @@ fn absorb(a: &mut Agg, sub: u64, p: &Value, o: &Outcome) {
         a.success_runs += 1;
         if p["sink"] == "is-dir" && !p["output"].is_null() {
             bump(&mut a.fault_kinds, "fired:output-path-is-a-directory(good reply)");
+        }
+        if p["sink"] == "fsize" && !p["output"].is_null() {
+            bump(&mut a.fault_kinds, "fired:output-file-size-limit(good reply)");
         }
         if p["script"]["also_cl"].is_i64() && p["script"]["framing"] == "chunked" {
             bump(&mut a.fault_kinds, "fired:chunked-reply-with-content-length(good reply, either outcome accepted)");
